@@ -45,7 +45,8 @@ def describe(tier):
             "nodes flattened, traces = flatten calls compared. Non-trivial = tree in which at least one child is substituted and at least one is skipped or left alone."
         ),
         "bounds": [{k: (list(v) if isinstance(v, tuple) else v) for k, v in blk.items()} for blk in BOUNDS[tier]],
-        "assumptions": ["precondition of the statement: children in bounds and ordered by start (the generator produces only such trees; scan trees violating it are skipped and counted)"],
+        "assumptions": ["every tree is flattened again after (a) its child objects were also handed to another Node, (b) each child (trees with <= 2 children) was re-typed across the 'ends in string' boundary after construction, (c) a grandchild's value changed",
+                        "precondition of the statement: children in bounds and ordered by start (the generator produces only such trees; scan trees violating it are skipped and counted)"],
         "exhaustive": True,
     }
 
@@ -115,6 +116,21 @@ def check_tree(rec, value, kids, w, size, root=None):
         if ok3 and got3 != exp:
             rec.violation("C19.flatten.current-tree", "depends-on-parent-pointers", w,
                           f"after the same child objects were also given to another Node, flatten() = {got3!r} instead of {exp!r}", size)
+    # a child is re-typed after construction (a caller relabels results; a decoder builds a Node and sets its type afterwards): the quoting
+    # follows the type the child has when flatten() runs
+    for ci, c in enumerate(root.children if len(kids) <= 2 else ()):
+        old_t = c.type
+        new_t = "x" if old_t.endswith("string") else "powershell.string"
+        c.type = new_t
+        ok4, got4 = rec.guard("C19.total", w, size, root.flatten)
+        c.type = old_t
+        if ok4:
+            kids4 = [k if i != ci else (new_t,) + tuple(k[1:]) for i, k in enumerate(kids)]
+            exp4 = fr.ref_flatten(value, kids4)
+            if got4 != exp4:
+                rec.violation("C19.flatten.current-tree", "type-assigned-after-construction", w,
+                              f"after child #{ci} was re-typed {old_t!r} -> {new_t!r}, flatten() = {got4!r}, the statement gives {exp4!r}", size)
+                break
     # flatten again after the tree changed below the root (a result must describe the tree as it is now)
     for ci, c in enumerate(root.children):
         for gi, g in enumerate(c.children):
